@@ -209,6 +209,11 @@ type reply struct {
 
 // deliver calls the handler in-process (no sockets) under a panic guard.
 func deliver(h http.Handler, method, u string, body string, ct string, cookies []*http.Cookie) *reply {
+	return deliverH(h, method, u, body, ct, cookies, nil)
+}
+
+// deliverH is deliver with further request headers (Referer, say).
+func deliverH(h http.Handler, method, u string, body string, ct string, cookies []*http.Cookie, hdr http.Header) *reply {
 	var rd io.Reader
 	if body != "" || method == "POST" || method == "PUT" {
 		rd = strings.NewReader(body)
@@ -219,6 +224,11 @@ func deliver(h http.Handler, method, u string, body string, ct string, cookies [
 	}
 	for _, c := range cookies {
 		r.AddCookie(&http.Cookie{Name: c.Name, Value: c.Value})
+	}
+	for k, vs := range hdr {
+		for _, v := range vs {
+			r.Header.Add(k, v)
+		}
 	}
 	w := httptest.NewRecorder()
 	rep := &reply{}
